@@ -47,6 +47,45 @@ def builtin_break(ctx, res):
     res.floor("built-in error/merge bodies", n, 6)
 
 
+RUNS_TO_THE_END = {"fold", "for_each", "reduce", "count", "last", "sum", "product", "max_by", "min_by", "max_by_key", "min_by_key", "partition", "unzip"}
+LAZY = {"map", "filter", "filter_map", "flat_map", "inspect", "scan", "map_while", "take_while", "skip_while"}
+
+
+def iter_rule(sc, crate, b, v, bs):
+    """The closure `b` makes a report.  If it is the function of `Iterator::fold` / `for_each` / .. the iteration cannot be
+    ended from inside it: whatever the error type answers, the remaining items are visited (and examined) all the same."""
+    from analysis import View, strip_refs, erase_generics
+    from lin import Finding
+    out = []
+    parent_path = b.path.rsplit("::{closure", 1)[0]
+    parents = [(mc, mb) for mc, mb, _r in sc.members if mc is crate and mb.path == parent_path]
+    if not parents:
+        parents = [(crate, pb) for pb in crate.bodies if pb.path == parent_path]
+    ob = 0
+    for pc, pb in parents[:1]:
+        pv = sc.view(pc, pb) if any(mb is pb for _c, mb, _r in sc.members) else View(pb)
+        for bb, c in pv.calls():
+            if c.fn is None or not c.trait or erase_generics(c.trait) != "std::iter::Iterator":
+                continue
+            t = pv.origin_call(bb)
+            hit = False
+            for a in t[3]:
+                a = strip_refs(a)
+                if a and a[0] == "agg" and a[1] == "closure" and len(a) > 3 and a[3] == b.path:
+                    hit = True
+            if not hit:
+                continue
+            ob += 1
+            at = pv.blocks[bb]["term"].get("at", "")
+            if c.name in RUNS_TO_THE_END:
+                out.append(Finding("C03.ITER", b.path, "a report is made inside the function given to Iterator::%s, which visits every remaining item whatever the error type answers: "
+                                   "a Break answer does not end the work" % c.name, at))
+            elif c.name in LAZY:
+                out.append(Finding("C03.ITER", b.path, "a report is made inside the function given to Iterator::%s: whether a Break answer ends the iteration depends on how the "
+                                   "adapted iterator is consumed, which was not read: not recognised (undecided)" % c.name, at, undecided=True))
+    return out, ob
+
+
 def run(ctx):
     res = PropResult("C03")
     res.level = "proof"
@@ -64,6 +103,10 @@ def run(ctx):
                     res.samples.append({"body": b.path, "site": "%s/%s at %s" % (s.kind, s.ek, s.at), "break_edge": "bb%s" % s.brk,
                                         "verdict": "every feasible path from the Break edge returns Err(payload) without examining anything"})
                     break
+            # C03.ITER: a report made inside the closure of an iterator consumer that always runs to the end
+            if b.kind == "Closure" and bs.sites:
+                fs_i, ob_i = iter_rule(sc, c, b, v, bs)
+                res.add("C03.ITER", ob_i, fs_i)
     import controls
     controls.run(ctx, res, "C03", lambda crate, b, v, bs: flow.c03_rules(v, bs)[0])
     builtin_break(ctx, res)
